@@ -3,7 +3,8 @@
    Vocabulary: Model.v (what the code computes: build, deliver, created, service_log, ...),
    Spec.v (what the configuration says: cpath, instance_spec, connectors_supported, connector_cycle),
    Proofs1.v (acyclic, is_walk), Proofs3.v (ends_exp). *)
-From Verif Require Import Common.Base C09.Model C09.Spec C09.Proofs1 C09.Proofs2 C09.Proofs3 C09.Proofs4 C09.Proofs5.
+From Verif Require Import Common.Base C09.Model C09.Spec C09.Proofs1 C09.Proofs2 C09.Proofs3 C09.Proofs4 C09.Proofs5 C09.Tie.
+From Verif Require Import Generated.C09Nodes Generated.C09Levels Generated.C09StabilityTable.
 From Coq Require Import Permutation.
 
 (* Build succeeds exactly when no pipeline lists a processor twice (else gonum panics; Validate
@@ -11,7 +12,8 @@ From Coq Require Import Permutation.
    graph has no cycle; the graph is then the node/edge set the configuration determines. *)
 Theorem build_ok_iff : forall c g,
   build c = Ok g <->
-  g = mkG (nodes_of c) (edges_of c) /\ procs_distinct c /\ connectors_supported c /\ acyclic (edges_of c).
+  g = mkG (nodes_of c) (edges_of c) /\ procs_distinct c /\ connectors_supported c /\ acyclic (edges_of c) /\
+  factories_serve c.
 Proof. exact build_ok_iff_l. Qed.
 
 (* ... and a cycle of the component graph is exactly a cycle of connector usage between pipelines
@@ -23,15 +25,18 @@ Proof. exact graph_cycle_iff_connector_cycle_l. Qed.
 (* "For every valid service configuration": unique pipeline ids, accepted by Validate, every
    connector use with a supported counterpart, no cycle of connector usage => Build succeeds. *)
 Theorem valid_config_builds : forall c,
-  wf_config c -> validate c = true -> connectors_supported c -> ~ connector_cycle c ->
+  wf_config c -> validate c = true -> connectors_supported c -> ~ connector_cycle c -> factories_serve c ->
   build c = Ok (mkG (nodes_of c) (edges_of c)).
 Proof. exact valid_config_builds_l. Qed.
 
-(* which error: panic (duplicated processor) before unsupported connector use before cycle *)
+(* which error: panic (duplicated processor) before unsupported connector use / missing connector factory
+   before cycle before a component factory that cannot serve its signal *)
 Theorem build_error_class : forall c,
   (build c = Err EPanic <-> ~ procs_distinct c) /\
   (build c = Err EUnsupported <-> procs_distinct c /\ ~ connectors_supported c) /\
-  (build c = Err ECycle <-> procs_distinct c /\ connectors_supported c /\ ~ acyclic (edges_of c)).
+  (build c = Err ECycle <-> procs_distinct c /\ connectors_supported c /\ ~ acyclic (edges_of c)) /\
+  (build c = Err EFactory <->
+     procs_distinct c /\ connectors_supported c /\ acyclic (edges_of c) /\ ~ factories_serve c).
 Proof. exact build_err_class. Qed.
 
 (* "Configurations whose connector usage forms a cycle, or that use a connector in a pipeline for
@@ -42,16 +47,21 @@ Proof. exact connector_cycle_rejected_l. Qed.
 Theorem unsupported_connector_rejected : forall c, ~ connectors_supported c -> exists e, build c = Err e.
 Proof. exact unsupported_rejected_l. Qed.
 
-(* "... and nothing is started": a build error (or a Validate error) leaves an empty event log — no
-   factory call, no Start; and whenever a Start happens the build had succeeded and that very
-   component had been created by it. *)
-Theorem build_error_starts_nothing : forall c,
-  (forall e, build c = Err e -> service_log c = []) /\
-  (validate c = false -> service_log c = []) /\
-  (forall n, In (Start n) (service_log c) ->
-     validate c = true /\ exists g, build c = Ok g /\ In n (created g) /\ In (Create n) (service_log c)).
+(* "... and nothing is started": for every creation order [ord] (gonum's choice), a build error leaves a log
+   without any Start; the log is empty unless the error is a factory's refusal during buildComponents
+   (EFactory), in which case it holds only factory calls that precede the refusal in [ord]; a Validate error
+   leaves an empty log; and whenever a Start happens the build had succeeded and that very component had
+   been created by it. *)
+Theorem build_error_starts_nothing : forall ord c,
+  (forall e, build c = Err e ->
+     (e <> EFactory -> service_log ord c = []) /\
+     (forall n, ~ In (Start n) (service_log ord c)) /\
+     (forall n, In (Create n) (service_log ord c) -> In n ord /\ cannot_create c n = false)) /\
+  (validate c = false -> service_log ord c = []) /\
+  (forall n, In (Start n) (service_log ord c) ->
+     validate c = true /\ exists g, build c = Ok g /\ In n (created g) /\ In (Create n) (service_log ord c)).
 Proof.
-  exact (fun c => conj (service_log_err c) (conj (service_log_invalid c) (service_log_start c))).
+  exact (fun ord c => conj (service_log_err ord c) (conj (service_log_invalid ord c) (service_log_start ord c))).
 Qed.
 
 (* Routing.  In a built graph, one datum emitted by receiver (s, i) travels along the complete walks
@@ -100,7 +110,7 @@ Proof. exact connector_router_exact_l. Qed.
    decides, whether or not it implements the experimental xconnector.Factory interface; only a pair
    involving profiles needs that interface. *)
 Theorem supported_factory_kind : forall c k x m E R,
-  lookup_conn k (conns c) = Some (x, m) ->
+  lookup_conn k (conns c) = Some (Some (x, m)) ->
   (E < 3 -> R < 3 ->
    supported c k E R = existsb (fun p => Nat.eqb (fst p) E && Nat.eqb (snd p) R) m) /\
   (x = false -> supported c k E R = true -> E < 3 /\ R < 3).
@@ -124,6 +134,29 @@ Theorem cycle_message_names_cycle : forall c l,
                   filter visible (Conn a b k :: m ++ [Conn a b k]) = l.
 Proof. exact cycle_report_l. Qed.
 
+(* ---- ties to definitions regenerated from the current Go source (instance obligations) ------------------ *)
+(* which nodes are components (component.Component in the method set: translator T1) *)
+Theorem tie_node_kinds : forall n,
+  is_component n = has_method m_Start (methods_of n) && has_method m_Shutdown (methods_of n) /\
+  skipped n = negb (is_component n).
+Proof. exact tie_node_kinds_l. Qed.
+
+(* every edge target of the model is a consumerNode of the code (getConsumer: translator T1) *)
+Theorem tie_edge_targets_consume : forall c a b,
+  In (a, b) (edges_of c) -> has_method m_getConsumer (methods_of b) = true.
+Proof. exact tie_edge_targets_l. Qed.
+
+(* Model.supported = connectorStability <> Undefined on every probe factory (table dumped by running the code) *)
+Theorem tie_supported_table : forallb row_ok C09StabilityTable = true /\ table_covers = true.
+Proof. exact tie_supported_table_l. Qed.
+
+Theorem tie_undefined_is_zero : C09_StabilityLevelUndefined = 0%Z.
+Proof. exact tie_undefined_is_zero_l. Qed.
+
+Print Assumptions tie_node_kinds.
+Print Assumptions tie_edge_targets_consume.
+Print Assumptions tie_supported_table.
+Print Assumptions tie_undefined_is_zero.
 Print Assumptions build_ok_iff.
 Print Assumptions graph_cycle_iff_connector_cycle.
 Print Assumptions valid_config_builds.
